@@ -39,7 +39,7 @@ func init() {
 		Level: "model_checking",
 		Rule: "(a) for every construct named by the statement (call receiver / chain argument / positional then keyword arguments in all interleavings, array elements incl. unpacking, operands of all 23 infix operators, range bounds, successive object and map pairs, interpolated string parts, callee and trailing function) a tracer is put in every slot (also stdin-reading and iterator-advancing variants): the printed trace must be the source order with each slot once; " +
 			"(b) 48 programs reaching the range-over-map sites of the interpreter (keyword arguments, duplicates, defaults, \\_, **obj/**map into literals and calls, object/map ==, printing incl. keys that tie in printed form, evalEnv, JSON.dec, case, patch/del/bear, env copying, parsing) are each evaluated under EVERY map iteration order at every site reached with <=1 (thorough <=2) sites deviating from the canonical order per execution; every execution must give the same (stdout, value, error); " +
-			"states = executions explored, transitions = choice points answered; non-trivial = execution with at least one deviation / trace with >=2 slots; distinct = distinct (program, choice vector); round 7: The slot tracers also sit in chains that may skip the call (`nil&.f(..)`, `&@`, `~.`): chain argument and arguments are still evaluated once, in order; equal non-scalar keys across two and three map expansions have expected outputs.",
+			"states = executions explored, transitions = choice points answered; non-trivial = execution with at least one deviation / trace with >=2 slots; distinct = distinct (program, choice vector); round 7: The slot tracers also sit in chains that may skip the call (`nil&.f(..)`, `&@`, `~.`): chain argument and arguments are still evaluated once, in order; equal non-scalar keys across two and three map expansions have expected outputs.; round 8: Slot tracers also sit in continued chains (`recv NEWLINE |=$(arg)prop(args)`, 16 constructs); two JSON programs with several members a stricter decoder could reject are explored under every map order.",
 		Assumptions: []string{
 			"inside one object/map pair the value is evaluated before the key; the statement orders only successive pairs (don't-care)",
 			"maps with more than 4 keys are permuted by a menu of 4 orders (canonical, reversed, rotated, first two swapped) instead of all n!",
